@@ -15,13 +15,13 @@ func init() { register("C09", runC09) }
 
 // parameters through which an entry point is documented to write
 var documentedUpdaters = map[string][]string{
-	"(*consensus.MidState).ApplyTransaction":             {"{consensus.MidState}"},
-	"(*consensus.MidState).ApplyV2Transaction":           {"{consensus.MidState}"},
-	"(*consensus.MidState).ApplyBlock":                   {"{consensus.MidState}"},
+	"(consensus.MidState).ApplyTransaction":             {"{consensus.MidState}"},
+	"(consensus.MidState).ApplyV2Transaction":           {"{consensus.MidState}"},
+	"(consensus.MidState).ApplyBlock":                   {"{consensus.MidState}"},
 	"(consensus.ApplyUpdate).UpdateElementProof":         {"{types.StateElement}"},
 	"(consensus.RevertUpdate).UpdateElementProof":        {"{types.StateElement}"},
-	"(*gateway.V2BlockOutline).Complete":                 {"{gateway.V2BlockOutline}"},
-	"(*gateway.V2BlockOutline).RemoveTransactions":       {"{gateway.V2BlockOutline}"},
+	"(gateway.V2BlockOutline).Complete":                 {"{gateway.V2BlockOutline}"},
+	"(gateway.V2BlockOutline).RemoveTransactions":       {"{gateway.V2BlockOutline}"},
 }
 
 var outputParams = map[string]bool{"{types.Encoder}": true, "{types.Decoder}": true, "{types.Hasher}": true}
@@ -149,7 +149,7 @@ func c09PerIterationFresh(c *Ctx, ge *GuardEngine) {
 
 // decodedSharedOK: decoders that by design store a sub-slice of memory they do not own.
 var decodedSharedOK = map[string]string{
-	"(*rhp/v2.RPCReadResponse).DecodeFrom": "documented: the caller may supply Data as a reusable buffer; the decoder reslices it when it is large enough",
+	"(rhp/v2.RPCReadResponse).DecodeFrom": "documented: the caller may supply Data as a reusable buffer; the decoder reslices it when it is large enough",
 }
 
 // c09DecodedOwnsMemory: a value produced by a decoder must not share backing memory with its siblings.
@@ -513,8 +513,8 @@ func c09TxnByTxn(c *Ctx, ge *GuardEngine) {
 	gs, _ := ge.EntryGuards(VB)
 	ms := "call consensus.NewMidState({consensus.State})"
 	for _, r := range []struct{ id, validate, apply string; args []string }{
-		{"v1", "consensus.ValidateTransaction", "(*consensus.MidState).ApplyTransaction", []string{ms, "{types.Block}.Transactions[*]", "{consensus.V1BlockSupplement}.Transactions[*]"}},
-		{"v2", "consensus.ValidateV2Transaction", "(*consensus.MidState).ApplyV2Transaction", []string{ms, "call (*types.Block).V2Transactions({types.Block})[*]"}},
+		{"v1", "consensus.ValidateTransaction", "(consensus.MidState).ApplyTransaction", []string{ms, "{types.Block}.Transactions[*]", "{consensus.V1BlockSupplement}.Transactions[*]"}},
+		{"v2", "consensus.ValidateV2Transaction", "(consensus.MidState).ApplyV2Transaction", []string{ms, "call (types.Block).V2Transactions({types.Block})[*]"}},
 	} {
 		var vg *Guard
 		for i, g := range gs {
@@ -561,8 +561,8 @@ func c09TxnByTxn(c *Ctx, ge *GuardEngine) {
 	if mab != nil {
 		cs2 := ge.Calls(mab, nil, nil, nil, 0, map[*ssa.Function]int{})
 		for _, r := range []struct{ id, apply, args string }{
-			{"v1", "(*consensus.MidState).ApplyTransaction", "{consensus.MidState}, {types.Block}.Transactions[*], {consensus.V1BlockSupplement}.Transactions[*]"},
-			{"v2", "(*consensus.MidState).ApplyV2Transaction", "{consensus.MidState}, call (*types.Block).V2Transactions({types.Block})[*]"},
+			{"v1", "(consensus.MidState).ApplyTransaction", "{consensus.MidState}, {types.Block}.Transactions[*], {consensus.V1BlockSupplement}.Transactions[*]"},
+			{"v2", "(consensus.MidState).ApplyV2Transaction", "{consensus.MidState}, call (types.Block).V2Transactions({types.Block})[*]"},
 		} {
 			found := false
 			for _, cf := range cs2 {
